@@ -503,6 +503,43 @@ def r13_7(ctx):
     ctx.floor("R13.7", "in-place representation changes of OwnedLazyValue", n, 1)
 
 
+def r13_8(ctx):
+    """cloning keeps the representation: Clone for the packed owned-lazy value builds, on the arm of each variant, a value
+    of that same variant (a raw value stays raw: its clone serializes verbatim whatever was read from the original before)"""
+    prog = ctx.prog()
+    fs = [g for g in prog.fns.values() if g.crate == "sonic_rs" and g.name == "clone" and (g.d.get("impl") or {}).get("trait_ref") == "<lazyvalue::owned::LazyPacked as core::clone::Clone>"]
+    if len(fs) != 1:
+        ctx.ob("R13.8", "anchor:Clone for LazyPacked", False, "", "impl Clone for LazyPacked not found (fail closed)")
+        return
+    f = fs[0]
+    adt = prog.adts.get("sonic_rs::lazyvalue::owned::LazyPacked")
+    names = {int(v["discr"]): v["name"] for v in adt["variants"]} if adt else {}
+    sw = None
+    for b, t in f.terms():
+        if t["k"] == "switch":
+            d = f.single_def(op_local(t["discr"])) if op_local(t["discr"]) is not None else None
+            if d and d[0] == "stmt" and d[3]["rv"]["k"] == "discr" and f.dominates(b, b) and sw is None:
+                sw = (b, t)
+    if sw is None or not names:
+        ctx.ob("R13.8", "anchor:dispatch", False, f.loc(), "variant dispatch of Clone for LazyPacked not found (fail closed)")
+        return
+    arms = {}
+    for v, x in sw[1]["targets"]:
+        arms[names.get(int(v), str(v))] = x
+    rest = [n for n in names.values() if n not in arms]
+    if len(rest) == 1:
+        arms[rest[0]] = sw[1]["otherwise"]
+    for name, tgt in sorted(arms.items()):
+        built = set()
+        for g in [f]:
+            for b, i, st in g.assigns():
+                rv = st["rv"]
+                if rv["k"] == "agg" and (rv.get("adt") or "").endswith("lazyvalue::owned::LazyPacked") and (b == tgt or f.dominates(tgt, b)):
+                    built.add(rv.get("variant"))
+        ok = built == {name}
+        ctx.ob("R13.8", f"clone:{name}", ok, f.loc(), f"the clone of a {name} value is built as {sorted(built)}" + ("" if ok else f": the clone of a raw value whose parse cache was filled by a read becomes a parsed value and no longer serializes its raw text verbatim"))
+
+
 def rv_places_local(rv):
     from ..analysis import rv_places
     return rv_places(rv)
@@ -514,4 +551,4 @@ def r13_w(ctx):
     witness_obligations(ctx, "R13.W", [('W3LazyValueBorrows', 'a borrowed LazyValue cannot outlive its input')])
 
 
-RULES = [("R13.1", r13_1), ("R13.2", r13_2), ("R13.3", r13_3), ("R13.4", r13_4), ("R13.5", r13_5), ("R13.6", r13_6), ("R13.6c", r13_6c), ("R13.7", r13_7), ("R13.W", r13_w)]
+RULES = [("R13.1", r13_1), ("R13.2", r13_2), ("R13.3", r13_3), ("R13.4", r13_4), ("R13.5", r13_5), ("R13.6", r13_6), ("R13.6c", r13_6c), ("R13.7", r13_7), ("R13.8", r13_8), ("R13.W", r13_w)]
